@@ -34,6 +34,13 @@ Example c16_instance :
   should_gzip (Some (bs "gzip;q=0, *")) = Ok false.
 Proof. vm_compute. repeat split; reflexivity. Qed.
 
+(* empty list elements (RFC 7230 section 7: a recipient must accept and ignore them) are covered by the
+   theorems above as elements with an empty coding; instances: *)
+Example c16_empty_elements :
+  should_gzip (Some (bs "*, , gzip;q=0")) = Ok false /\ should_gzip (Some (bs ", gzip")) = Ok true /\
+  should_gzip (Some (bs "gzip;q=0.5, ,identity")) = Ok false /\ should_gzip (Some (bs "identity;q=0.5, , gzip")) = Ok true.
+Proof. vm_compute. repeat split. Qed.
+
 Print Assumptions c16_qvalue.
 Print Assumptions c16_decision.
 Print Assumptions c16_absent_or_empty.
